@@ -54,10 +54,20 @@ def run(report: Report, tier, seed):
     rbad = [r for r in rng if r["problems"]]
     report.bounded.append(Bounded(function="abi.UintN.set", contract="python ints >= 2^N rejected at build time; Expr values >= 2^N make the program fail",
                                   bound="N in {8,16,32,64} x boundary values x versions {6,10}", cases=len(rng), distinct_nontrivial=len(rng), failures=len(rbad)))
+    cj = A.copy_jobs(tier, seed)
+    cr = A.pool_map(A.copy_case, cj)
+    cbad = [r for r in cr if r["problems"]]
+    report.bounded.append(Bounded(function="abi X.set(another ABI value)", contract="rejected when built, refused at run time, or the destination encodes the same logical value per ARC-4 (no silent truncation / re-interpretation)",
+                                  bound=f"all ordered pairs of {len(A.COPY_TYPES)} types (uint widths, bool, byte, string / byte[] / address / byte[N], small arrays and tuples) x boundary values x main routine / subroutine",
+                                  cases=len(cr), distinct_nontrivial=sum(1 for r in cr if r["accepted"]), failures=len(cbad)))
     report.sample({"shape": jobs[40][0], "what": "assembled with set() from parts, Log(encode()) compared with algosdk"})
     report.extra["explanation"] = "P: layout arithmetic (pyvc); B: Expr layer against algosdk on generated shapes/values"
     report.settle_undecided(lambda fn, obs: (bad[0] if bad else None) and {"input": {"shape": bad[0]["shape"], "seed": bad[0]["seed"], "version": bad[0]["version"], "in_sub": bad[0]["in_sub"]}, "problems": bad[0]["problems"][:2]})
     report.settle_refuted(lambda fn, obs: (bad[0] if bad else None) and {"input": {"shape": bad[0]["shape"], "seed": bad[0]["seed"], "version": bad[0]["version"], "in_sub": bad[0]["in_sub"]}, "problems": bad[0]["problems"][:2]})
+    for b in cbad[:2]:
+        if any(o.status == "refuted" for o in report.obs):
+            break
+        report.violation(Violation(key=f"copy:{b['job'][0]}->{b['job'][1]}", what=b["problems"][0][:400], replay={"input": {"copy": b["job"]}, "teal": b.get("teal")}, confirmed_native=True))
     for b in (bad + rbad)[:3]:
         if any(o.status == "refuted" for o in report.obs):
             break
@@ -70,6 +80,10 @@ def replay(data):
     r = data.get("replay") or {}
     nat = r.get("native") or r
     inp = nat.get("input")
+    if inp and inp.get("copy"):
+        out = A.copy_case(tuple(inp["copy"]))
+        print(out["problems"][:2])
+        return 1 if out["problems"] else 0
     if not inp or inp.get("seed") is None:
         print("no concrete input;", [x["id"] for x in r.get("refuted", [])])
         return 1
